@@ -90,8 +90,8 @@ func (s *BadSmellListener) EnterClassDeclaration(ctx *ClassDeclarationContext) {
 
 func getTypeData(typ *TypeTypeContext) string {
 	var typeData string
-	classOrInterface := typ.ClassOrInterfaceType().(*ClassOrInterfaceTypeContext)
-	if classOrInterface != nil {
+	classOrInterface, ok := typ.ClassOrInterfaceType().(*ClassOrInterfaceTypeContext)
+	if ok && classOrInterface != nil {
 		identifiers := classOrInterface.AllIdentifier()
 		typeData = identifiers[len(identifiers)-1].GetText()
 	}
